@@ -479,6 +479,52 @@ fn dfs(setup: &Setup, op: &Op, pages: &[Page<'static>], first: u16, poll_bound: 
     }
 }
 
+/// One `Sign` object used for 70 000 calls in a row (more than a 16-bit counter holds): every call is a conversation of
+/// its own against a fresh reference machine, and the 70 000th is judged like the first. Replies let the operation
+/// proceed except that every 7th call meets a bus error and every 11th an unexpected reply somewhere along the way.
+fn marathon(invariants_mode: bool, rep: &mut Report) {
+    let mut sess = Session::new(3, 2, 5).with_error_flavour(1);
+    let mut rng = Rng::new(0xC10_C11);
+    let page = mk_pages(5, 1, &mut rng);
+    for i in 0..70_000usize {
+        let op = [Op::ShutDown, Op::Show, Op::LoadNext, Op::ConfigureIfNeeded, Op::Show, Op::ShutDown, Op::LoadNext, Op::SendPages][i % 8].clone();
+        let pages: &[Page<'static>] = if op == Op::SendPages { &page } else { &[] };
+        let upset = if i % 7 == 3 { Some((rng.usize(6), SYM_BUS_ERROR)) } else if i % 11 == 5 { Some((rng.usize(6), rng.below(N_SYMBOLS as u64) as u16)) } else { None };
+        let op2 = op.clone();
+        let mut visits: Vec<(&'static str, usize)> = vec![];
+        let pick = Box::new(move |depth: usize, pos: &'static str| {
+            if let Some((at, sym)) = upset {
+                if depth == at {
+                    return sym;
+                }
+            }
+            let occ = match visits.iter_mut().find(|(n, _)| *n == pos) {
+                Some((_, k)) => {
+                    *k += 1;
+                    *k - 1
+                }
+                None => {
+                    visits.push((pos, 1));
+                    0
+                }
+            };
+            // a sign that is ready (so that configure_if_needed has nothing to do)
+            if pos == "if_needed_hello" { S_SHOWN as u16 } else { proceed(&op2, pos, occ) }
+        });
+        let c = sess.call(&op, pages, vec![], 60, pick, false);
+        let before = rep.violations.len();
+        monitor(&c, 5, pages.len(), invariants_mode, rep);
+        rep.count("marathon_calls_on_one_sign_object");
+        if rep.violations.len() > before {
+            return;
+        }
+    }
+    let parting = sess.finish();
+    if !parting.is_empty() {
+        rep.count("marathon_parting_messages");
+    }
+}
+
 fn random_conversation(ctx: &Ctx, rng: &mut Rng, invariants_mode: bool, rep: &mut Report) {
     let ty = rng.usize(TYPES.len());
     let own = rng.edgy_u16();
@@ -594,6 +640,9 @@ pub fn run(ctx: &Ctx, invariants_mode: bool) -> Outcome {
             }
         } else {
             let mut rng = ctx.rng("random", (shard - nj) as u64);
+            if shard == nj {
+                marathon(invariants_mode, rep);
+            }
             for _ in 0..n_random / rand_shards as u64 {
                 random_conversation(ctx, &mut rng, invariants_mode, rep);
             }
@@ -606,6 +655,7 @@ pub fn run(ctx: &Ctx, invariants_mode: bool) -> Outcome {
         floor("every DFS subtree enumerated to its end", report.get("dfs_subtrees_completed") == nj as u64, report.get("dfs_subtrees_completed")),
         floor("every canned earlier call performed, then every operation enumerated on the same Sign object", report.set_len("preludes_performed") >= PRELUDES.len() as u64 && report.get("conversations_with_a_reused_sign_object") > 100_000, format!("{} preludes, {} conversations", report.set_len("preludes_performed"), report.get("conversations_with_a_reused_sign_object"))),
         floor("bus errors of every kind (custom, io::Error Interrupted / TimedOut / WouldBlock, wrapped io::Error)", report.set_len("bus_error_flavours") == 6, report.set_len("bus_error_flavours")),
+        floor("one Sign object used for 70 000 calls", report.get("marathon_calls_on_one_sign_object") == 70_000, report.get("marathon_calls_on_one_sign_object")),
         floor("every reply symbol offered at every protocol position", n_positions >= 16 && cells == n_positions * N_SYMBOLS as u64, format!("{} cells over {} positions", cells, n_positions)),
         floor("ok / protocol error / bus error observed for every operation", (0..6u64).all(|o| (0..3u64).all(|k| report.sets.get("op_x_outcome").map(|s| s.contains(&(o * 4 + k))).unwrap_or(false))), report.set_len("op_x_outcome")),
     ];
